@@ -9,9 +9,10 @@
     velocities taken at the stage positions and fractional times (first sentence of the property,
     exactly); T2 the tableaux satisfy all order conditions through order 1 / 2 / 4; T3 exactness to
     order p on linear fields; T4 exactness as quadrature rules in time (degree 0 / 1 / 3);
-    T5 the same for ladim.analytical.get_velocity1/2/4 (get_velocity2 for every s <> 0). *)
-From Coq Require Import ZArith QArith List Bool.
-From Ladim Require Import Base.Num Model.Tracker Proofs.TrackerProofs Proofs.SchemeProofs.
+    T5 the same for ladim.analytical.get_velocity1/2/4 (get_velocity2 for every s <> 0);
+    T6 convergence with order p (explicit error constant) on every linear field. *)
+From Coq Require Import ZArith QArith List Bool Reals Qreals.
+From Ladim Require Import Base.Num Model.Tracker Proofs.TrackerProofs Proofs.SchemeProofs Proofs.ConvergenceProofs.
 Import ListNotations.
 Open Scope Q_scope.
 
@@ -91,6 +92,37 @@ Proof.
   exact (conj (gv1_linear lam mu x y) (conj (fun s H => gv2_linear lam mu dt s x y H) (gv4_linear lam mu dt x y))).
 Qed.
 Print Assumptions C01_analytical_linear.
+
+(** T6 — convergence with order p on every LINEAR field u = lam*x + mu (lam <> 0): n steps of the model's
+    Runge-Kutta step with dt/dx = T/n, compared with the exact solution of dx/dt = lam*x + mu at time T;
+    the end-point error is bounded by C/n^p with the explicit constant C = |x0 + mu/lam| |lam T|^(p+1) e^|lam T| / (p+1)!.
+    (Real-number axioms of the standard library appear in Print Assumptions.)  At the level of the stability
+    polynomials the bound holds for every order p ([C01_conv_order]). *)
+Theorem C01_linear_convergence_EF : forall (lam mu T dtdy x0 y0 : Q) (n : nat),
+  ~ lam == 0 -> (1 <= n)%nat ->
+  (Rabs (Q2R (fst (rk_iter (vlin lam mu) (T / inject_Z (Z.of_nat n)) dtdy tab_EF n x0 y0)) - exact_end lam mu T x0)
+   <= Rabs (Q2R x0 + Q2R mu / Q2R lam) *
+      (Rabs (Q2R lam * Q2R T) ^ 2 * exp (Rabs (Q2R lam * Q2R T)) / 2 / INR n ^ 1))%R.
+Proof. exact model_conv_EF. Qed.
+Print Assumptions C01_linear_convergence_EF.
+Theorem C01_linear_convergence_RK2 : forall (lam mu T dtdy x0 y0 : Q) (n : nat),
+  ~ lam == 0 -> (1 <= n)%nat ->
+  (Rabs (Q2R (fst (rk_iter (vlin lam mu) (T / inject_Z (Z.of_nat n)) dtdy tab_RK2 n x0 y0)) - exact_end lam mu T x0)
+   <= Rabs (Q2R x0 + Q2R mu / Q2R lam) *
+      (Rabs (Q2R lam * Q2R T) ^ 3 * exp (Rabs (Q2R lam * Q2R T)) / 6 / INR n ^ 2))%R.
+Proof. exact model_conv_RK2. Qed.
+Print Assumptions C01_linear_convergence_RK2.
+Theorem C01_linear_convergence_RK4 : forall (lam mu T dtdy x0 y0 : Q) (n : nat),
+  ~ lam == 0 -> (1 <= n)%nat ->
+  (Rabs (Q2R (fst (rk_iter (vlin lam mu) (T / inject_Z (Z.of_nat n)) dtdy tab_RK4 n x0 y0)) - exact_end lam mu T x0)
+   <= Rabs (Q2R x0 + Q2R mu / Q2R lam) *
+      (Rabs (Q2R lam * Q2R T) ^ 5 * exp (Rabs (Q2R lam * Q2R T)) / 120 / INR n ^ 4))%R.
+Proof. exact model_conv_RK4. Qed.
+Print Assumptions C01_linear_convergence_RK4.
+Theorem C01_conv_order : forall p z n, (1 <= n)%nat ->
+  (Rabs (Tp p (z / INR n) ^ n - exp z) <= Cconv p z / INR n ^ p)%R.
+Proof. exact conv_order. Qed.
+Print Assumptions C01_conv_order.
 
 (** the conjunction that stands for the property; the convergence clause for arbitrary smooth fields
     is the missing part (see the header) *)
